@@ -163,6 +163,11 @@ def run(res, tier, seed, shard, nshards):
         for (L, api, ks, trace) in mine:
             one(res, W, rng, conns, L, api, ks, trace, null)
         W.enableTrace(False)
+        # receives and sends of equally shaped frames interleaved on one connection (the receive path formats frames too when
+        # trace logging is on): every frame the client writes is still a masked client frame of its own
+        for i in range(40 if tier == "quick" else 600):
+            if (i + shard) % nshards == 0:
+                duplex_case(res, W, rng, null)
         # one ABNF object written several times (re-sent as is, and with fin/opcode/data updated per fragment):
         # every write is one well-formed frame of its own with a fresh key
         for ks in ("default", "bytes", "str"):
@@ -367,3 +372,59 @@ def reuse_case(res, W, rng, ks):
             res.violation("key-draws", f"reused frame object step {k} ({how}): {len(draws)} draws from the key source; key on the wire {f.key.hex()}", case, api="send_frame-reuse", keysrc=ks)
         elif ret != len(written):
             res.violation("return-value", f"reused frame object step {k}: returned {ret}, frame has {len(written)} bytes", case, api="send_frame-reuse", keysrc=ks)
+
+
+def duplex_case(res, W, rng, null):
+    from ..ref import rfc6455 as RR
+    ks = rng.choice(["default", "bytes", "str"])
+    src = KeySrc(ks, rng)
+    trace = rng.random() < 0.6
+    W.enableTrace(trace, handler=null)
+    w, conn, peer = H.connected_ws(ws_kwargs={"get_mask_key": src.fn()}, timeout=1)
+    shapes = [(RR.TEXT, 1), (RR.BINARY, 1), (RR.TEXT, 0), (RR.CONT, 1), (RR.PING, 1), (RR.PONG, 1)]
+    for step in range(rng.randrange(3, 9)):
+        op, fin = rng.choice(shapes)
+        n = rng.choice([0, 1, 2, 5, 16, 125])
+        if op in (RR.TEXT,) or (op == RR.CONT):
+            payload = bytes(rng.randrange(0x20, 0x7f) for _ in range(n))
+        else:
+            payload = rng.randbytes(n)
+        # the server sends a frame of this shape first (unmasked, as servers do) ...
+        if rng.random() < 0.7:
+            conn.deliver(RR.encode(op, payload, fin=fin))
+            try:
+                w.recv_frame()
+            except W.WebSocketException:
+                pass
+        # ... then the client writes one of the same shape
+        before = len(peer.client_stream)
+        del src.draws[:]
+        u0 = len(shim.urandom_log)
+        mine = rng.randbytes(n) if op not in (RR.TEXT, RR.CONT) else bytes(rng.randrange(0x20, 0x7f) for _ in range(n))
+        try:
+            ret = w.send_frame(W.ABNF.create_frame(mine, op, fin))
+        except Exception as e:  # noqa
+            res.violation("send-raised", f"duplex step {step}: {type(e).__name__}: {e}", {"gen": "duplex"}, api="send_frame-duplex", exc_type=type(e).__name__)
+            break
+        written = bytes(peer.client_stream[before:])
+        case = {"gen": "duplex", "trace": trace, "keysrc": ks, "opcode": op, "fin": fin, "len": n}
+        res.case(("duplex", trace, ks, op, fin, n, R_h(mine)))
+        res.count("duplex_writes")
+        try:
+            f = RR.decode_one(written)
+        except RR.Incomplete:
+            res.violation("frame-incomplete", f"duplex (trace={trace}) op={op} fin={fin} len={n}: written bytes {written[:12].hex()} are not one complete client frame", case,
+                          api="send_frame-duplex", keysrc=ks)
+            break
+        draws = [(n_, v) for (n_, v, fn, fun) in shim.urandom_log[u0:] if fn == "_abnf.py"] if ks == "default" else list(src.draws)
+        if not f.masked:
+            res.violation("unmasked", f"duplex (trace={trace}) op={op} fin={fin} len={n}: MASK bit clear in a client frame ({written[:8].hex()})", case, api="send_frame-duplex", keysrc=ks)
+            break
+        if f.end != len(written) or f.payload != mine or f.opcode != op or f.fin != fin or f.rsv or not f.minimal or ret != len(written):
+            res.violation("frame-damaged", f"duplex (trace={trace}) op={op} fin={fin} len={n}: decoded op={f.opcode} fin={f.fin} len={f.length} end={f.end}/{len(written)} ret={ret}", case,
+                          api="send_frame-duplex", keysrc=ks)
+            break
+        if len(draws) != 1:
+            res.violation("key-draws", f"duplex (trace={trace}): {len(draws)} draws from the key source for one frame", case, api="send_frame-duplex", keysrc=ks)
+            break
+    W.enableTrace(False)
